@@ -89,8 +89,8 @@ def dispatchDisk : List String → Option (Obs × Option Obs)
     | .ok none =>
       -- whatever the implementation returns instead must still be made of existing files of the
       -- pattern's basename / extension (vacuously true for "nothing")
-      some ([("err", "ok"), ("found", "0"), ("be", "1"), ("exist", "1"), ("strictok", "1")],
-            some [("err", "ok"), ("be", "1"), ("exist", "1"), ("strictok", "1")])
+      some ([("err", "ok"), ("found", "0"), ("be", "1"), ("exist", "1"), ("strictok", "1"), ("again", "1")],
+            some [("err", "ok"), ("be", "1"), ("exist", "1"), ("strictok", "1"), ("again", "1")])
     | .ok (some s) =>
       let ps := s.paths
       let pdir := match Seq.parse st pat with | .ok f => f.dir | .error _ => []
@@ -113,8 +113,9 @@ def dispatchDisk : List String → Option (Obs × Option Obs)
           ("strictok", showBool (strict != "1" ||
               (match Seq.parse st pat with
                | .ok f => f.pad.isEmpty || s.zfill == f.zfill
-               | .error _ => true))) ]
-      some (m, some ([("err", "ok"), ("be", "1"), ("exist", "1"), ("strictok", "1")] ++ (if negz then [("~negzero", "1")] else [])))
+               | .error _ => true))),
+          ("again", "1") ]
+      some (m, some ([("err", "ok"), ("be", "1"), ("exist", "1"), ("strictok", "1"), ("again", "1")] ++ (if negz then [("~negzero", "1")] else [])))
   | _ => none
 
 end Gfs.Ops
